@@ -53,6 +53,20 @@ pub fn oracle(f: u32, args: &Args, out: &Args) -> Option<(&'static str, String)>
     if out.len() == 1 && out[0] == vec![crate::PANIC] {
         return Some(("C11", format!("panic in function {}", f)));
     }
+    // C11: a decoder allocates no more than a fixed bound beyond (a multiple of) the input size.
+    // Measured over the whole execution of the case, harness bookkeeping included, which is why the
+    // factor is generous; an attacker-controlled length used as a capacity exceeds any such bound.
+    const DECODERS: [u32; 22] = [101, 102, 201, 202, 203, 251, 252, 253, 301, 302, 303, 304, 305, 306, 401, 403, 405, 406, 408, 501, 505, 523];
+    if DECODERS.contains(&f) {
+        let n: u64 = args.iter().map(|a| a.len() as u64).sum();
+        let used = crate::meter::last();
+        if std::env::var("E1_ALLOC_STATS").is_ok() && used > 64 * n + 4096 {
+            eprintln!("alloc f={} n={} used={}", f, n, used);
+        }
+        if used > 256 * n + 65_536 {
+            return Some(("C11", format!("decoding {} input elements requested {} bytes from the allocator", n, used)));
+        }
+    }
     if (520..530).contains(&f) {
         return session::oracle(f, args, out);
     }
